@@ -522,6 +522,22 @@ def delete_preconditions(prog, an, rep):
     at = [canon(f, v) for name in tagv
           for v in value_leaves(f, ast.Name(id=name, ctx=ast.Load()))
           if v is not None]
+    # a conditional expression on the kind of the branch: both readings
+    from ..rules import simplify_under
+    hot = 'isinstance(%s, HotfixBranch)' % B
+    for txt in list(at):
+        try:
+            e_ = ast.parse(txt, mode='eval').body
+        except SyntaxError:
+            continue
+        if not any(isinstance(x, ast.IfExp) for x in ast.walk(e_)):
+            continue
+        for val in (True, False):
+            t_ = string_template(simplify_under(f, e_, {hot: val}))
+            if t_ is not None and len(t_[1]) == 1 and \
+                    canon(f, t_[1][0]) == B + '.version':
+                at.append(B + '.version' if t_[0] == '{}' else
+                          B + '.version + %r' % t_[0][2:])
     rep.check(B + '.version' in at and any(
         'archived_hotfix_branch' in x for x in at), R, f.qname +
         ': archive tag = version (hotfix: suffixed)', f.where(),
